@@ -106,3 +106,77 @@ Proof.
     rewrite (app_assoc rl CRLF), skipn_length_app.
     unfold get_header_lines. rewrite split_lines by exact Hf. apply header_lines_go_empties.
 Qed.
+
+(* ---------------------------------------------------------------- *)
+(* the lines the reference reads are the lines the block is written from *)
+
+Lemma crlf_free_snoc l x :
+  crlf_free l = true ->
+  match rev l with c :: _ => negb ((c =? 13) && (x =? 10)) = true | [] => True end ->
+  crlf_free (l ++ [x]) = true.
+Proof.
+  induction l as [|a l IH]; intros H1 H2.
+  - cbn. rewrite andb_false_r. reflexivity.
+  - cbn [crlf_free app] in *. apply andb_true_iff in H1 as [A B].
+    destruct l as [|b l'].
+    + cbn [app rev] in *. rewrite H2. cbn. rewrite andb_false_r. reflexivity.
+    + cbn [app]. cbn [app] in IH. rewrite A. cbn [andb]. apply IH; auto.
+      cbn [rev] in *. destruct (rev l' ++ [b]) eqn:E; [destruct (rev l'); discriminate|].
+      cbn [app] in H2. exact H2.
+Qed.
+
+Lemma block_of_app a b : block_of (a ++ b) = block_of a ++ block_of b.
+Proof. unfold block_of. rewrite map_app, concat_app. reflexivity. Qed.
+
+Lemma block_of_snoc ls l : block_of (ls ++ [l]) = block_of ls ++ l ++ CRLF.
+Proof. rewrite block_of_app. unfold block_of at 2. cbn [map concat]. rewrite app_nil_r. reflexivity. Qed.
+
+Lemma read_head_block : forall n0 s, (length s <= n0)%nat ->
+  forall cur acc n lines rest k,
+  read_head s cur acc n = Some (lines, rest, k) ->
+  crlf_free (rev cur) = true -> forallb crlf_free (rev acc) = true ->
+  (match cur, s with c :: _, y :: _ => negb ((c =? 13) && (y =? 10)) = true | _, _ => True end) ->
+  exists pre, s = pre ++ rest
+              /\ block_of (rev acc) ++ rev cur ++ pre = block_of lines ++ CRLF
+              /\ forallb crlf_free lines = true.
+Proof.
+  induction n0 as [|n0 IH]; intros s Hn cur acc n lines rest k.
+  { destruct s; [discriminate|cbn in Hn; lia]. }
+  destruct s as [|x [|y r']]; try discriminate. cbn [read_head].
+  destruct ((x =? 13) && (y =? 10)) eqn:E.
+  - apply andb_true_iff in E as [E1 E2]. apply N.eqb_eq in E1, E2. subst x y.
+    intros H Hc Ha Hb.
+    assert (Hrec : read_head r' [] (rev cur :: acc) (n + 2) = Some (lines, rest, k) ->
+                   exists pre, 13 :: 10 :: r' = pre ++ rest
+                     /\ block_of (rev acc) ++ rev cur ++ pre = block_of lines ++ CRLF
+                     /\ forallb crlf_free lines = true).
+    { intro H0.
+      destruct (IH r' ltac:(cbn [length] in Hn; lia) [] (rev cur :: acc) (n + 2) lines rest k H0) as (pre' & P1 & P2 & P3).
+      - reflexivity.
+      - cbn [rev]. rewrite forallb_app. cbn [forallb]. rewrite Ha, Hc. reflexivity.
+      - exact I.
+      - exists (13 :: 10 :: pre'). split; [rewrite P1; reflexivity|]. split; auto.
+        rewrite <- P2. cbn [rev app]. rewrite block_of_snoc. rewrite <- !app_assoc. reflexivity. }
+    destruct cur as [|c cur'].
+    + destruct acc as [|a0 acc'].
+      * apply Hrec. exact H.
+      * injection H as <- <- <-. exists [13; 10]. split; [reflexivity|]. split; auto.
+    + apply Hrec. exact H.
+  - intros H Hc Ha Hb.
+    destruct (IH (y :: r') ltac:(cbn [length] in *; lia) (x :: cur) acc (n + 1) lines rest k H) as (pre' & P1 & P2 & P3).
+    + cbn [rev]. apply crlf_free_snoc; auto. rewrite rev_involutive. destruct cur; auto.
+    + exact Ha.
+    + rewrite E. reflexivity.
+    + exists (x :: pre'). split; [rewrite P1; reflexivity|]. split; auto.
+      rewrite <- P2. cbn [rev]. rewrite <- !app_assoc. reflexivity.
+Qed.
+
+(* the head of a stream, as the reference reads it, is the block of its lines *)
+Theorem read_head_lines : forall s lines rest n,
+  read_head s [] [] 0 = Some (lines, rest, n) ->
+  s = (block_of lines ++ CRLF) ++ rest /\ forallb crlf_free lines = true.
+Proof.
+  intros s lines rest n H.
+  destruct (read_head_block (length s) s ltac:(lia) [] [] 0 lines rest n H eq_refl eq_refl I) as (pre & P1 & P2 & P3).
+  cbn [rev block_of map concat app] in P2. rewrite <- P2. auto.
+Qed.
